@@ -400,7 +400,7 @@ func init() {
 		csCov := clientSessionEngine(run, tier)
 		run.Finish("model_checking", evid.Coverage{
 			"clientsession": csCov,
-			"states": mc.Distinct, "transitions": mc.Generated, "traces_validated_against_impl": len(good), "messages": len(cases),
+			"states":        mc.Distinct, "transitions": mc.Generated, "traces_validated_against_impl": len(good), "messages": len(cases),
 			"samples": samples, "checker_cmd": mc.Cmd,
 		}, []string{"bodies over {'.', bare LF, CRLF, other} up to length 5 (quick) / 7 (thorough) plus seeded random longer ones; Write partitions whole / one random split / bytewise; verdict accept / reject with a marker error; SMTP and LMTP",
 			"every run also closes the writer a second time and requires an error and an undisturbed next command"})
